@@ -88,6 +88,7 @@ type Stats struct {
 	SimSeconds int64          `json:"sim_seconds"`
 	Hashes     int            `json:"hashes"`
 	Truncated  string         `json:"truncated,omitempty"`
+	Known      map[string]int `json:"known,omitempty"` // listed known findings re-observed without ending the run
 }
 
 func newStats() *Stats {
@@ -126,6 +127,25 @@ func (w *World) Report(prop, oracle, key, detail string, h int64) {
 	if w.Viol == nil {
 		w.Viol = &Violation{Prop: prop, Oracle: oracle, Key: key, Detail: detail, Height: h}
 	}
+}
+
+// IsKnown is set by the driver: reports whether a violation signature is a listed known finding.
+var IsKnown func(sig string) bool
+
+// ReportKnownable reports a violation whose consequences the monitor can step over: when its signature
+// is a listed known finding it is only counted (the run goes on and explores the rest), otherwise it is
+// an ordinary violation. It returns true when the run may continue.
+func (w *World) ReportKnownable(prop, oracle, key, detail string, h int64) bool {
+	sig := prop + "/" + oracle + "/" + key
+	if IsKnown != nil && IsKnown(sig) {
+		if w.Stats.Known == nil {
+			w.Stats.Known = map[string]int{}
+		}
+		w.Stats.Known[sig]++
+		return true
+	}
+	w.Report(prop, oracle, key, detail, h)
+	return false
 }
 
 // Probe counts a "this condition was reached" event.
